@@ -44,7 +44,7 @@ TEXT = {
              "with an empty free list. Heap histories: up to 300 steps, sizes 0..4096 with the boundary sizes of the "
              "statement, at most 90 live blocks; in addition every history of length <= 5 over 4 block slots and of "
              "length 6 over 3 slots (thorough: <= 6 and 7) with sizes {8,64,200,0} is run. Pools are also run with capacities 250..262, 33..300, 508..516 and the object pool with over-aligned (32/64) and odd-sized (9/12/20 byte) element types. Absence of defects beyond "
-             "the explored histories is not established.",
+             "the explored histories is not established. Pools of 3000..70000 cells are driven with allocation / free bursts (cells inside the zone, never handed out twice, free count after every burst).",
     "note": "Trusted: the harness' shadow model, clang ASan/UBSan, the host's __WORDSIZE (64: the shim rounds every "
             "request up to a multiple of 64 bytes here, so only that granule is exercised). The shim has no "
             "end-of-arena check; the generator keeps live demand below half of the 256 KiB arena and never asks for "
